@@ -251,8 +251,15 @@ def b2l(b):
 
 
 def n2l(x):
-    """non-negative int -> minimal big-endian byte list ([] for 0)"""
-    assert x >= 0
+    """non-negative int -> minimal big-endian byte list ([] for 0).  A value the library should never hand back (negative, not an
+    integer) becomes a list starting with a negative marker, which no specified byte sequence equals: the event is then
+    rejected by the trace specification instead of crashing the harness."""
+    try:
+        x = int(x)
+    except Exception:  # noqa
+        return [-2]
+    if x < 0:
+        return [-1] + list((-x).to_bytes(((-x).bit_length() + 7) // 8, "big"))
     return list(x.to_bytes((x.bit_length() + 7) // 8, "big"))
 
 
